@@ -11,6 +11,7 @@ Deviation flags (all repaired by now; kept as the record of the earlier code, wi
 termination, that found names come from a finite set — exactly what the two key flags break.
 -/
 import RsassModel.Load.LemmasGraph
+import RsassModel.Load.LemmasClosure
 namespace C02
 open Load
 
@@ -92,6 +93,51 @@ theorem load_terminates (q : LoadQuirks) (hq : q.loadCssUnlockEarly = false) (F 
   have h := execBody_enough_fuel q hq F K hK fuel root { loading := [root] }
     (Nat.lt_of_le_of_lt (room_le _ _) hfuel)
   unfold compile
+  split
+  · simp [Res.errOf]
+  · next e s he =>
+    rw [he] at h
+    simp only [Res.isBad, beq_eq_false_iff_ne, ne_eq] at h
+    simpa [Res.errOf] using h
+
+/-! ### termination for the real finder: a concrete, checked, finite set of names
+
+`NamesIn` cannot be discharged from the file table alone for *every* world (a name like
+`sub//_index.scss`, or one built from a url containing `://`, is not a path of the table, and
+under the deviations `loadKeyTextual`/`normalizeKeepsEmpty` the names really are unbounded).
+What holds for every finite world is the *checkable* form: a list `K` that contains the root and
+is closed under "resolve every load statement of the body, without faults" (`closedUnder`, a
+`Bool`, decided by evaluation for any concrete world; `reach` computes a candidate `K`) bounds
+the names of every run — with any fault oracle — and gives the explicit fuel bound. -/
+
+theorem execBody_closed_fuel (q : LoadQuirks) (hq : q.loadCssUnlockEarly = false) (W : World)
+    (K : List Str) (hc : closedUnder q W K = true) (fuel : Nat) (name : Str) (hname : name ∈ K)
+    (s : St) (hroom : room K s.loading < fuel) :
+    (execBody q (fsFinder q W) fuel name s).isBad (· == .fuel) = false := by
+  induction fuel generalizing name s with
+  | zero => omega
+  | succ fuel ih =>
+    simp only [execBody]
+    apply execItems_bad (bad := (· == .fuel)) (by simp [OnlyNested]) hq
+      (execBody_balanced q (fsFinder q W) fuel)
+      (fun n L' => room K L' < fuel ∧ n ∈ K) (fun n s1 h => ih n h.2 s1 h.1) s.loading _ _ _ rfl
+    · intro it k url calls n c hit ht hf hn
+      have hnK : n ∈ K := closedUnder_found hc hname hit ht hf
+      have := room_cons_lt hnK hn
+      exact ⟨by omega, hnK⟩
+    · intro h; simp at h
+
+/-- **termination of the real finder, explicit bound**: for every world `W` (any file table,
+search path and fault oracle) and every list `K` of names that contains the root and passes the
+decidable closure check, compilation with load-css locked during its body never needs more than
+`K.length + 1` nested files. -/
+theorem load_terminates_concrete (q : LoadQuirks) (hq : q.loadCssUnlockEarly = false) (W : World)
+    (K : List Str) (root : Str) (hroot : root ∈ K) (hc : closedUnder q W K = true)
+    (fuel : Nat) (hfuel : K.length < fuel) :
+    (run q W fuel root).errOf ≠ some .fuel := by
+  have h := execBody_closed_fuel q hq W K hc fuel root hroot { loading := [root] }
+    (Nat.lt_of_le_of_lt (room_le _ _) hfuel)
+  unfold run compile
   split
   · simp [Res.errOf]
   · next e s he =>
@@ -227,6 +273,32 @@ theorem repeated_load_example :
       ([97, 46, 115, 99, 115, 115], ⟨1, [.mark]⟩)], [[]], fun _ => none⟩
     (run LoadQuirks.spec W W.fuel [105, 110, 46, 115, 99, 115, 115]).errOf = none ∧
     (run LoadQuirks.now W W.fuel [105, 110, 46, 115, 99, 115, 115]).errOf = none := by
+  decide +kernel
+
+/-- the closure check on concrete worlds: for the specification and for the code today the
+reachable names of the self-import worlds are the two (three) files, found by `reach` and
+closed; so `load_terminates_concrete` applies with fuel 3 (4).  Under the old deviations the
+same worlds have no small closed set: three rounds of `reach` already produce the growing names. -/
+theorem closure_examples :
+    reach LoadQuirks.spec wDotSlash 2 [[105, 110, 46, 115, 99, 115, 115]]
+      = [[105, 110, 46, 115, 99, 115, 115], [97, 46, 115, 99, 115, 115]] ∧
+    closedUnder LoadQuirks.spec wDotSlash (reach LoadQuirks.spec wDotSlash 2 [[105, 110, 46, 115, 99, 115, 115]]) = true ∧
+    closedUnder LoadQuirks.now wDotSlash (reach LoadQuirks.now wDotSlash 2 [[105, 110, 46, 115, 99, 115, 115]]) = true ∧
+    closedUnder LoadQuirks.now wEmptySeg (reach LoadQuirks.now wEmptySeg 2 [[105, 110, 46, 115, 99, 115, 115]]) = true ∧
+    closedUnder LoadQuirks.now wLoadCss (reach LoadQuirks.now wLoadCss 2 [[105, 110, 46, 115, 99, 115, 115]]) = true ∧
+    closedUnder LoadQuirks.asis wDotSlash (reach LoadQuirks.asis wDotSlash 3 [[105, 110, 46, 115, 99, 115, 115]]) = false ∧
+    closedUnder LoadQuirks.mid wEmptySeg (reach LoadQuirks.mid wEmptySeg 3 [[105, 110, 46, 115, 99, 115, 115]]) = false := by
+  decide +kernel
+
+/-- `load_terminates_concrete` applied: the self-import world terminates (here: with a loop
+error) within 3 nested files, for the code today and any fault oracle on that file table -/
+theorem wDotSlash_terminates (fail : Nat → Option Fault) :
+    (run LoadQuirks.now { wDotSlash with fail := fail } 3 [105, 110, 46, 115, 99, 115, 115]).errOf ≠ some .fuel := by
+  apply load_terminates_concrete LoadQuirks.now rfl _
+    [[105, 110, 46, 115, 99, 115, 115], [97, 46, 115, 99, 115, 115]] _ (by simp) _ 3 (by simp)
+  -- the closure check does not look at the fault oracle
+  show closedUnder LoadQuirks.now wDotSlash
+    [[105, 110, 46, 115, 99, 115, 115], [97, 46, 115, 99, 115, 115]] = true
   decide +kernel
 
 end C02
